@@ -716,8 +716,8 @@ def stage_C13(run):
         inp, outp = os.path.join(run.dir, "miri.sexp"), os.path.join(run.dir, "miri.out")
         with open(inp, "w") as f:
             f.write("\n".join(run.programs[i] for i in idx) + "\n")
-        rc, log = sh("cd %s/harness && MIRIFLAGS='-Zmiri-disable-isolation -Zmiri-ignore-leaks' CARGO_TARGET_DIR=%s/miri-target "
-                     "timeout 2400 cargo +nightly miri run --offline -- run %s %s 2>&1 | tail -25" % (VROOT, CACHE, inp, outp), 2500)
+        rc, log = sh("cd %s/harness && (MIRIFLAGS='-Zmiri-disable-isolation -Zmiri-ignore-leaks' CARGO_TARGET_DIR=%s/miri-target "
+                     "timeout 2400 cargo +nightly miri run --offline -- run %s %s; echo MIRI_RC=$?) 2>&1 | tail -25" % (VROOT, CACHE, inp, outp), 2500)
         try:
             lines = open(outp).read().splitlines()
         except OSError:
@@ -741,6 +741,10 @@ def stage_C13(run):
                 from compare import same_output
                 if not same_output(saved["lines"][k], run.impl[i]) and not same_output(run.impl[i], saved["lines"][k]):
                     alarms.append((i, "C13: output under Miri differs from the native build's"))
+    if not alarms and len(saved["lines"]) < len(saved["idx"]) and "MIRI_RC=124" in saved["log"]:
+        # the interpreter ran out of its time limit (a slow or loaded machine): not judged, not an alarm
+        return [], [], "", {"miri_programs": len(saved["idx"]), "miri_outputs_equal_native": same,
+                            "miri": "timed out after %d programs" % len(saved["lines"])}
     if not alarms and len(saved["lines"]) < len(saved["idx"]):
         i = saved["idx"][len(saved["lines"])]
         alarms.append((i, "C13: the harness stopped under Miri: " + saved["log"][-300:].replace("\n", " ")))
